@@ -19,9 +19,11 @@ Clauses of the property and where they are settled:
 -/
 import XlModel.Lemmas.Cfb
 import XlModel.Lemmas.CfbRead
+import XlModel.Lemmas.CfbRW
+import XlModel.Lemmas.Crypt
 
 namespace XlModel.Props.C13
-open XlModel.Cfb XlModel.Facts.C13
+open XlModel.Cfb XlModel.Crypt XlModel.Facts.C13
 
 /-- *every package size*: `locate`'s FAT/DIFAT loop terminates for every list of stream sizes
 (the model's fuel `sectors + 2` is never exhausted). -/
@@ -145,14 +147,24 @@ theorem encrypt_decrypt_package (c : Cipher) (hc : c.Lawful) (raw : List Byte) (
     standardDecryptPkg c (encryptedPackage c raw) = .ok raw :=
   standardDecrypt_encryptedPackage c hc raw hn
 
-/-- *Encrypt followed by Decrypt* (whole file) — partial: the step "the reference reader recovers the
-two streams from the image written by `write`" is an explicit hypothesis `hr` (it is established
-per case by the correspondence driver, field `rt=1`, and by two independent readers on the Go
-bytes; its ingredients are the theorems above). -/
-theorem encrypt_decrypt_file_partial (c : Cipher) (hc : c.Lawful) (isStd : List Byte → Bool)
-    (info raw : List Byte) (img : Image) (hn : raw.length < 2 ^ 64) (hi : isStd info = true)
-    (hr : read img = .ok [⟨infoName, info⟩, ⟨pkgName, encryptedPackage c raw⟩]) :
-    decryptFile c isStd img = .ok raw := by
+/-- *every package size* (container round trip): for **every** list of streams (any number, any
+names, any sizes — empty, below the 4096-byte cutoff, above it, across every FAT and DIFAT
+threshold) `write` succeeds (`locate` terminates, no stream is misplaced) and the [MS-CFB]
+reference reader — header → DIFAT chain → FAT → directory chain → mini FAT → mini stream
+container → per-stream FAT / mini FAT chain from the directory entry's start, cut to the recorded
+size — returns exactly the streams that were put in, in order. -/
+theorem cfb_read_write (streams : List Stream) :
+    ∃ img, write streams = .ok img ∧ read img = .ok streams := read_write streams
+
+/-- *Encrypt followed by Decrypt returns the original bytes* (whole file, full strength): for every
+lawful block cipher, every EncryptionInfo content the decryptor classifies as standard and every
+plaintext (< 2^64 bytes): `Encrypt` produces a compound file and `Decrypt` — reference reader,
+stream lookup by name, mechanism check, `standardDecrypt` — returns exactly the plaintext. -/
+theorem encrypt_decrypt_file (c : Cipher) (hc : c.Lawful) (isStd : List Byte → Bool)
+    (info raw : List Byte) (hn : raw.length < 2 ^ 64) (hi : isStd info = true) :
+    ∃ img, encryptFile c info raw = .ok img ∧ decryptFile c isStd img = .ok raw := by
+  obtain ⟨img, hw, hr⟩ := read_write [⟨infoName, info⟩, ⟨pkgName, encryptedPackage c raw⟩]
+  refine ⟨img, hw, ?_⟩
   unfold decryptFile
   rw [hr]
   have h1 : findStream infoName [⟨infoName, info⟩, ⟨pkgName, encryptedPackage c raw⟩] = info := by
@@ -163,14 +175,56 @@ theorem encrypt_decrypt_file_partial (c : Cipher) (hc : c.Lawful) (isStd : List 
   simp only [h1, h2, hi, if_true]
   exact standardDecrypt_encryptedPackage c hc raw hn
 
-deriving instance DecidableEq for Except
-
 /-- *interoperability parameters*: the ECMA-376 standard-encryption constants `Encrypt` and
 `standardDecrypt` use (spin count 50000, AES-128, 16-byte blocks, 8-byte length prefix), and the two
 sides agree on prefix and block size. -/
 theorem standard_parameters :
     iterCount = 50000 ∧ encBlock = 16 ∧ encKeyBits = 128 ∧ encPrefix = 8 ∧ decOffset = encPrefix ∧
     decPrefix = encPrefix ∧ decBlock = encBlock ∧ packageOffset = 8 := by decide
+
+/-- *agile documents decrypt to valid packages* (segment loop) — partial: for a cipher text of
+`N = 4096·q + r` bytes with `1 ≤ r ≤ 4088` (every block-aligned length that is not a multiple of
+4096, any number of segments) `decryptPackage` takes exactly the chunks the format prescribes:
+`input[8:]` cut into consecutive 4096-byte segments, each byte visited exactly once, segment `i`
+decrypted with the IV built from index `i`; the empty package yields one empty chunk (no byte). The full
+statement (every `N`) is false: see `finding_agile_last_half_block_lost`. -/
+theorem agile_segments_partition_partial (q r : Nat) (hr1 : 1 ≤ r)
+    (hr2 : r ≤ packageEncryptionChunkSize - packageOffset) :
+    decryptPackageSegs (packageEncryptionChunkSize * q + r + packageOffset)
+      = .ok (specSegs (packageEncryptionChunkSize * q + r)) ∧
+    (decryptPackageSegs packageOffset = .ok [(0, packageOffset, packageOffset)] ∧ specSegs 0 = []) := by
+  constructor
+  · unfold decryptPackageSegs
+    have hL : ¬ (packageEncryptionChunkSize * q + r + packageOffset < packageOffset) := by omega
+    rw [if_neg hL]
+    have h := agileLoop_good q r hr1 hr2 q 0 (packageEncryptionChunkSize * q + r + packageOffset + 1)
+      (by omega) (by simp only [packageEncryptionChunkSize] at *; omega)
+    simp only [Nat.mul_zero] at h
+    rw [h, specSegs_form q r hr1 (by simp only [packageEncryptionChunkSize, packageOffset] at *; omega)]
+  · decide
+
+/-- finding (open): when the cipher text is a multiple of 4096 bytes (a package whose length is
+0…15 bytes below a multiple of 4096) the loop compares `end + offset < len(input)` instead of `≤`:
+the last segment is cut 8 bytes short (its final AES block is lost and replaced by zero padding)
+and an extra empty chunk with the next IV index is processed. Witness: 4096 bytes of cipher text. -/
+theorem finding_agile_last_half_block_lost :
+    decryptPackageSegs (4096 + 8) = .ok [(0, 8, 4096), (1, 4104, 4104)] ∧
+    specSegs 4096 = [(0, 8, 4104)] ∧
+    decryptPackageSegs (4096 + 8) ≠ .ok (specSegs 4096) := by
+  decide +kernel
+
+/-- model fact (malformed input, not block aligned): a cipher text of 4090 bytes makes
+`input[start+offset : end]` an inverted slice — the runtime panic outcome of the model. -/
+theorem finding_agile_unaligned_panics : decryptPackageSegs (4090 + 8) = .panic := by
+  decide +kernel
+
+/-- *every password the API accepts … any Unicode text*: the UTF-16LE conversion applied to the
+password before key derivation (BMP code units, surrogate pairs above U+FFFF) is injective on
+Unicode scalar sequences, so two different passwords never feed the same bytes into the hash. -/
+theorem password_encoding_injective (a b : List Char) (h : utf16le a = utf16le b) : a = b :=
+  utf16le_injective a b h
+
+deriving instance DecidableEq for Except
 
 /-! non-vacuity -/
 
